@@ -8,7 +8,15 @@
                        as_slice / len / data_offset / elements_iter
      els  <el> ...     TcpOptions::try_from_elements / TcpHeader::set_options, ditto
                        el = N | M:<u16> | W:<u8> | P | T:<u32>-<u32>
-                          | S:<l>-<r>,<slot>,<slot>,<slot>   slot = <l>-<r> or -      *)
+                          | S:<l>-<r>,<slot>,<slot>,<slot>   slot = <l>-<r> or -
+     hdr <sp> <dp> <seq> <ack> <flags> <win> <csum> <urg> <payload hex> / op / op ...
+                       a TcpHeader (flags: bit0 ns, 1 fin, 2 syn, 3 rst, 4 psh, 5 ack, 6 urg,
+                       7 ece, 8 cwr; options empty), then op = raw <hex> (set_options_raw) or
+                       els <el> ... (set_options) one after the other; after every op: result,
+                       data_offset, header_len, options area, options_iterator, to_bytes, and
+                       to_bytes ++ payload through TcpHeaderSlice / TcpSlice / from_slice / read
+     wire <hex>        any bytes through TcpHeaderSlice / TcpSlice / TcpHeader::from_slice /
+                       read: windows, data offsets, option areas, the option iterators      *)
 open M_c13
 
 let rec pos_of_z (z : Z.t) : positive =
@@ -70,10 +78,9 @@ let s_rest total (r : bytes) =
 let s_fault = function
   | OOB -> "FAULT-OOB" | Panic -> "FAULT-PANIC" | OutOfFuel -> "FAULT-FUEL" | Ret _ -> "?"
 
-(* model: iterate the area, then two more calls *)
-let model_iter (area : bytes) : string =
-  let total = List.length area in
-  match iterate area with
+(* model: a whole iteration (items, rest() after each), then two more calls *)
+let print_iter (total : int) (r : ((item * bytes) list * bytes) m) : string =
+  match r with
   | Ret (tr, fin) ->
     let items = List.map (fun (it, r) -> s_item it ^ "@" ^ s_rest total r) tr in
     let fin_s = "end@" ^ s_rest total fin in
@@ -83,6 +90,8 @@ let model_iter (area : bytes) : string =
        String.concat " " (items @ [fin_s] @ more @ ["last@" ^ s_rest total st])
      | f -> s_fault f)
   | f -> s_fault f
+
+let model_iter (area : bytes) : string = print_iter (List.length area) (iterate area)
 
 (* spec: the table-driven reference decoder; after the end nothing is left *)
 let spec_iter (area : bytes) : string =
@@ -135,6 +144,129 @@ let element_of (s : string) : element =
      | _ -> failwith "sack")
   | _ -> failwith ("element " ^ s)
 
+(* ---- header level (TcpOpt/Header.v on top of Roundtrip/Tcp.v) --------------------
+   names of the monolithic extraction: the C08 result type is Ok0 / Err0, the C08
+   record for struct TcpOptions has the fields o_len0 / o_buf0, the header field
+   `ack` is ack0.
+   Windows: a TcpHeaderSlice / header_slice() is a prefix of the buffer (offset 0),
+   options() starts at index 20 (the start index of the model's slice_range), the
+   rest / payload is a suffix (offset = total - length). *)
+let same_or (reference : string) (s : string) : string = if s = reference then "=" else s
+
+let s_derr = function
+  | ELen -> "ERR:len"
+  | EContent c -> "ERR:doff:" ^ s_of_n c
+  | EIo -> "ERR:io"
+  | EOOB -> "FAULT-OOB"
+  | EPanic -> "FAULT-PANIC"
+
+let views_line (buf : bytes) (ref_area : string) (ref_it : string) (hdr : tcpHeader option) : string =
+  let total = List.length buf in
+  let out = ref [] in
+  let push s = out := s :: !out in
+  let area_ref = ref ref_area and it_ref = ref ref_it in
+  (* TcpHeaderSlice *)
+  (match slice_from_slice buf with
+   | Err0 e -> push ("hs=" ^ s_derr e)
+   | Ok0 hs ->
+     (match hs_data_offset hs, hs_options hs with
+      | Ret d, Ret o ->
+        let area = hex_of_bytes o in
+        let it = print_iter (List.length o) (hs_options_iterate hs) in
+        push (Printf.sprintf "hs=0+%d hsdo=%s hsopt=20+%d:%s hsit[ %s ]" (List.length hs) (s_of_n d)
+                (List.length o) (same_or !area_ref area) (same_or !it_ref it));
+        if !area_ref = "" then area_ref := area;
+        if !it_ref = "" then it_ref := it
+      | _ -> push "hs=FAULT"));
+  (* TcpSlice *)
+  (match ts_from_slice buf with
+   | Err0 e -> push ("ts=" ^ s_derr e)
+   | Ok0 t ->
+     (match ts_data_offset t, ts_header_slice t, ts_payload t, ts_options t with
+      | Ret d, Ret hsl, Ret pl, Ret o ->
+        push (Printf.sprintf "ts=%s tsdo=%s tshs=0+%d tspl=%d+%d tsopt=20+%d:%s tsit[ %s ]"
+                (s_of_n (ts_header_len t)) (s_of_n d) (List.length hsl)
+                (total - List.length pl) (List.length pl) (List.length o)
+                (same_or !area_ref (hex_of_bytes o))
+                (same_or !it_ref (print_iter (List.length o) (ts_options_iterate t))))
+      | _ -> push "ts=FAULT"));
+  (* TcpHeader::from_slice *)
+  let decoded = ref None in
+  (match from_slice buf with
+   | Err0 e -> push ("fs=" ^ s_derr e)
+   | Ok0 (h2, rest) ->
+     (match hdr_options_area h2 with
+      | Ret o ->
+        push (Printf.sprintf "fs=%d+%d fshl=%s fsdo=%s fsopt=%s fsit[ %s ]"
+                (total - List.length rest) (List.length rest)
+                (s_of_n (hdr_header_len h2)) (s_of_n (hdr_data_offset h2))
+                (same_or !area_ref (hex_of_bytes o))
+                (same_or !it_ref (print_iter (List.length o) (hdr_options_iterate h2))))
+      | _ -> push "fs=FAULT");
+     (match hdr with
+      | Some h -> push ("fseq=" ^ (if tcp_eqb h h2 then "eq" else "ne"))
+      | None -> ());
+     decoded := Some h2);
+  (* TcpHeader::read *)
+  (match read buf with
+   | Err0 e -> push ("rd=" ^ s_derr e)
+   | Ok0 (h3, rest) ->
+     (match hdr_options_area h3 with
+      | Ret o ->
+        push (Printf.sprintf "rd=%d rdopt=%s rdeq=%s" (total - List.length rest)
+                (same_or !area_ref (hex_of_bytes o))
+                (match !decoded with
+                 | Some h2 -> if tcp_eqb h2 h3 then "eq" else "ne"
+                 | None -> "none"))
+      | _ -> push "rd=FAULT"));
+  String.concat " " (List.rev !out)
+
+let state_line (h : tcpHeader) (payload : bytes) : string =
+  match hdr_options_area h, to_bytes h with
+  | Ret o, Some bs ->
+    let area = hex_of_bytes o in
+    let it = print_iter (List.length o) (hdr_options_iterate h) in
+    Printf.sprintf "do=%s hl=%s area=%s hit[ %s ] bytes=%s %s" (s_of_n (hdr_data_offset h))
+      (s_of_n (hdr_header_len h)) area it (hex_of_bytes bs) (views_line (bs @ payload) area it (Some h))
+  | Ret _, None -> "FAULT-to_bytes"
+  | _, _ -> "FAULT-as_slice"
+
+(* split a token list at the "/" tokens *)
+let split_ops (toks : string list) : string list list =
+  let rec go cur acc = function
+    | [] -> List.rev (List.rev cur :: acc)
+    | "/" :: r -> go [] (List.rev cur :: acc) r
+    | t :: r -> go (t :: cur) acc r in
+  go [] [] toks
+
+let hdr_case (toks : string list) : string =
+  match split_ops toks with
+  | [sp; dp; seq; ackn; flags; win; csum; urg; pl] :: ops ->
+    let fl = int_of_string flags in
+    let bit k = fl land (1 lsl k) <> 0 in
+    let h0 = { source_port = n_of_s sp; destination_port = n_of_s dp; sequence_number = n_of_s seq;
+               acknowledgment_number = n_of_s ackn;
+               ns = bit 0; fin = bit 1; syn = bit 2; rst = bit 3; psh = bit 4; ack0 = bit 5;
+               urg = bit 6; ece = bit 7; cwr = bit 8;
+               window_size = n_of_s win; checksum = n_of_s csum; urgent_pointer = n_of_s urg;
+               (* TcpHeader::new: options: Default::default() = { len: 0, buf: [0;40] } *)
+               options = { o_len0 = N0; o_buf0 = List.init 40 (fun _ -> N0) } } in
+    let payload = bytes_of_hex pl in
+    let rec go h acc = function
+      | [] -> String.concat " ; " (List.rev acc)
+      | op :: rest ->
+        let r = match op with
+          | ["raw"; hx] -> set_options_raw h (bytes_of_hex hx)
+          | "els" :: ts -> set_options h (List.map element_of ts)
+          | _ -> failwith "hdr op" in
+        (match r with
+         | Ret (res, h') ->
+           let rs = match res with Ok () -> "ok" | Err required -> "err:nes=" ^ s_of_n required in
+           go h' ((rs ^ " " ^ state_line h' payload) :: acc) rest
+         | f -> String.concat " ; " (List.rev (s_fault f :: acc))) in
+    go h0 [] ops
+  | _ -> failwith "hdr fields"
+
 let run (line : string) : string =
   match Conv.split_ws line with
   | ["raw"; h] ->
@@ -148,6 +280,8 @@ let run (line : string) : string =
     let os = List.map to_opt els in
     let w = wire_list os in
     model_options (try_from_elements els) ^ " | " ^ spec_options (len w) w
+  | "hdr" :: toks -> hdr_case toks ^ " | -"
+  | ["wire"; h] -> views_line (bytes_of_hex h) "" "" None ^ " | -"
   | _ -> failwith ("bad c13 case: " ^ line)
 
 let () =
